@@ -5,9 +5,11 @@ package walkcase
 
 import (
 	"syscall"
+
 	"context"
 	"errors"
 	"fmt"
+	"github.com/go-git/go-git/v5/plumbing/format/gitignore"
 	"io"
 	"io/fs"
 	"sort"
@@ -31,6 +33,8 @@ import (
 type Pat struct {
 	Name         string
 	DirOnly, Neg bool
+	Raw          bool // Name is a whole .gitignore line in full gitignore syntax (globs, anchors, **, classes, comments);
+	// the model does not interpret it: the case line carries the REAL go-git matcher's answers as a table (GiTable)
 }
 
 // Node is a tree node; Path is "." or slash-joined segments.
@@ -70,18 +74,18 @@ type Out struct {
 // Case is one scan.
 type Case struct {
 	UG, ISD, RS, EOFS, CB bool
-	SAP                    bool // StoreAbsolutePath (only with ABS and one root): reported locations must be /vr0/<relative location>
-	ABS                    bool // scan roots carry an absolute Path (/vr<i>); PathsToExtract and DirsToSkip are given as absolute paths below root 0
-	MX, MI, CA, NExt       int
-	EK                     int // kind of the injected filesystem errors: 0 other (EIO-like), 1 permission, 2 not-exist
-	Paths, Skip            []string
-	HasRx, HasGl           bool
-	RxSet, GlSet           []string // directory paths the engines match (filled by the generator with the real engines)
-	RxSrc, GlSrc           string   // sources (not part of the case line; regenerated sets are what the model sees)
-	Req                    []EP
-	Ext                    map[EP]Out
-	ExtOrder               []EP
-	Roots                  []Root
+	SAP                   bool // StoreAbsolutePath (only with ABS and one root): reported locations must be /vr0/<relative location>
+	ABS                   bool // scan roots carry an absolute Path (/vr<i>); PathsToExtract and DirsToSkip are given as absolute paths below root 0
+	MX, MI, CA, NExt      int
+	EK                    int // kind of the injected filesystem errors: 0 other (EIO-like), 1 permission, 2 not-exist
+	Paths, Skip           []string
+	HasRx, HasGl          bool
+	RxSet, GlSet          []string // directory paths the engines match (filled by the generator with the real engines)
+	RxSrc, GlSrc          string   // sources (not part of the case line; regenerated sets are what the model sees)
+	Req                   []EP
+	Ext                   map[EP]Out
+	ExtOrder              []EP
+	Roots                 []Root
 }
 
 func hexPath(p string) string {
@@ -137,6 +141,10 @@ func (n *Node) flatten(out *[]string) {
 	if n.HasGi {
 		ps := make([]string, len(n.Gi))
 		for i, p := range n.Gi {
+			if p.Raw {
+				ps[i] = "20" + hx.Hex(p.Name)
+				continue
+			}
 			ps[i] = fmt.Sprintf("%d%d%s", b(p.DirOnly), b(p.Neg), hx.Hex(p.Name))
 		}
 		gi = "g" + strings.Join(ps, ",")
@@ -205,6 +213,9 @@ func (c *Case) Line() string {
 		}
 		fmt.Fprintf(&sb, " %s of=%s|sf=%s|ff=%s|rf=%s", strings.Join(ns, ";"), hexPaths(keys(r.F.Open), ","), hexPaths(keys(r.F.Stat), ","), hexPaths(keys(r.F.FileStat), ","), hx.Join(rf, ","))
 	}
+	if gt := c.GiTable(); gt != nil {
+		fmt.Fprintf(&sb, " gt=%s", hx.Join(gt, ","))
+	}
 	return sb.String()
 }
 
@@ -214,6 +225,81 @@ func atoi(s string) int {
 		panic(err)
 	}
 	return n
+}
+
+func hasRaw(ps []Pat) bool {
+	for _, p := range ps {
+		if p.Raw {
+			return true
+		}
+	}
+	return false
+}
+
+func giField(n *Node) string {
+	var out []string
+	n2 := *n
+	n2.Kids = nil
+	n2.flatten(&out)
+	return out[0][strings.LastIndex(out[0], ":")+1:]
+}
+
+// GiTable evaluates the REAL go-git matcher for every directory whose .gitignore is in full gitignore syntax: entries
+// <hex(key)>~<path>~<d|f> for each tree path the matcher EXCLUDES, key = "<dir path>#<gi field of the case line>".
+// Lines are filtered as git documents (and ParseDirForGitignore implements): '#' comments and blank lines carry no
+// pattern; each remaining line is parsed with the directory's path as its domain; the last matching pattern decides.
+// nil when no directory of the case uses the full syntax.
+func (c *Case) GiTable() []string {
+	var out []string
+	any := false
+	seen := map[string]bool{}
+	for _, r := range c.Roots {
+		var all []*Node
+		var walk func(n *Node)
+		walk = func(n *Node) {
+			all = append(all, n)
+			for _, k := range n.Kids {
+				walk(k)
+			}
+		}
+		walk(r.Tree)
+		for _, d := range all {
+			if d.Kind != 'd' || !d.HasGi || !hasRaw(d.Gi) {
+				continue
+			}
+			any = true
+			var dom []string
+			if d.Path != "." {
+				dom = strings.Split(d.Path, "/")
+			}
+			var ps []gitignore.Pattern
+			for _, line := range strings.Split(strings.TrimSuffix(string(GiContent(d.Gi)), "\n"), "\n") {
+				if !strings.HasPrefix(line, "#") && len(strings.TrimSpace(line)) > 0 {
+					ps = append(ps, gitignore.ParsePattern(line, dom))
+				}
+			}
+			m := gitignore.NewMatcher(ps)
+			key := hx.Hex(hexPath(d.Path) + "#" + giField(d))
+			for _, q := range all {
+				if q.Path == "." {
+					continue
+				}
+				isDir := q.Kind == 'd'
+				if m.Match(strings.Split(q.Path, "/"), isDir) {
+					e := fmt.Sprintf("%s~%s~%c", key, hexPath(q.Path), map[bool]byte{true: 'd', false: 'f'}[isDir])
+					if !seen[e] {
+						seen[e] = true
+						out = append(out, e)
+					}
+				}
+			}
+		}
+	}
+	if !any {
+		return nil
+	}
+	sort.Strings(out)
+	return out
 }
 
 // ParseLine is the inverse of Line.
@@ -302,7 +388,7 @@ func parseTree(s string) *Node {
 			n.HasGi = true
 			if len(f[3]) > 1 {
 				for _, ps := range strings.Split(f[3][1:], ",") {
-					n.Gi = append(n.Gi, Pat{Name: hx.UnHex(ps[2:]), DirOnly: ps[0] == '1', Neg: ps[1] == '1'})
+					n.Gi = append(n.Gi, Pat{Name: hx.UnHex(ps[2:]), DirOnly: ps[0] == '1', Neg: ps[1] == '1', Raw: ps[0] == '2'})
 				}
 			}
 		}
@@ -485,6 +571,11 @@ func (f *file) ReadDir(n int) ([]fs.DirEntry, error) {
 func GiContent(ps []Pat) []byte {
 	var sb strings.Builder
 	for _, p := range ps {
+		if p.Raw {
+			sb.WriteString(p.Name)
+			sb.WriteByte('\n')
+			continue
+		}
 		if p.Neg {
 			sb.WriteByte('!')
 		}
